@@ -14,7 +14,9 @@
    Usage: gen <quick|thorough> <seed> [literal|dedup]
 
    Output: one line per operation,  `[@<d> ]<op> <args> => <dump>`  and a final `# cases=<n> ops=<n>`.
-     reset <N> <L>            N elements (logical ids 1..N) all nsync_dll_init_'ed, L empty lists
+     reset <N> <L>            N elements (logical ids 1..N) all nsync_dll_init_'ed, L empty lists (the `container`
+                              argument varies from case to case: own address / one shared object / NULL / two owners;
+                              it never shows in the output because dll.c must not interpret it)
      make_first <lid> <e>     list[lid] = nsync_dll_make_first_in_list_ (list[lid], &el[e])
      make_last <lid> <e>      list[lid] = nsync_dll_make_last_in_list_ (list[lid], &el[e])
      remove <lid> <e>         list[lid] = nsync_dll_remove_ (list[lid], &el[e])
@@ -136,6 +138,18 @@ static char *dump (char *o) {
 
 static char line[1024];
 
+/* What nsync_dll_init_ is given as `container` (an arbitrary caller-chosen pointer that dll.c must never
+   interpret): 0 = the element itself, 1 = one object shared by all elements, 2 = NULL, 3 = two owners. */
+static int cmode;
+static void *container_for (int i) {
+	switch (cmode) {
+	case 1: return ((void *) &S->el[0]);
+	case 2: return (NULL);
+	case 3: return ((void *) &S->el[i & 1]);
+	default: return ((void *) &S->el[i]);
+	}
+}
+
 static void emit_reset (int n, int l) {
 	int i;
 	char *o = line;
@@ -143,12 +157,13 @@ static void emit_reset (int n, int l) {
 	L = l;
 	memset (S, 0, sizeof (*S));
 	for (i = 0; i != N; i++) {
-		nsync_dll_init_ (&S->el[i], &S->el[i]);
+		nsync_dll_init_ (&S->el[i], container_for (i));
 		S->where[i] = -1;
 	}
 	for (i = 0; i != L; i++) {
 		S->lst[i] = NULL;
 	}
+	printf ("# containers=%d\n", cmode);
 	o += sprintf (o, "reset %d %d => ", N, L);
 	o = dump (o);
 	puts (line);
@@ -291,6 +306,7 @@ static void random_cases (unsigned long count, int n, int l, int maxlen) {
 	for (c = 0; c != count; c++) {
 		int len = 1 + (int) (rnd () % (uint64_t) maxlen);
 		int d;
+		cmode = (int) (c & 3);
 		emit_reset (n, l);
 		for (d = 0; d != len; d++) {
 			int m = all_ops (ops), g = 0, i;
@@ -322,10 +338,14 @@ int main (int argc, char **argv) {
 	if (thorough) {
 		emit_reset (5, 2);
 		dfs (0, 7);
+		for (cmode = 1; cmode != 4; cmode++) { emit_reset (4, 2); dfs (0, 6); }
+		cmode = 0;
 		random_cases (100000, 6, 3, 60);
 	} else {
 		emit_reset (4, 2);
 		dfs (0, 5);
+		for (cmode = 1; cmode != 4; cmode++) { emit_reset (4, 2); dfs (0, 4); }
+		cmode = 0;
 		random_cases (2000, 6, 3, 40);
 	}
 	printf ("# cases=%llu ops=%llu\n", n_cases, n_ops);
